@@ -110,7 +110,7 @@ def gen_scn(r, k, forced=None):
             c["eb"]["raw"][0] = 1.0
         if r.random() < 0.4:        # targetDistMinVal: a fraction of the maximum, or 0 = the smallest positive value
             c["eb"]["minval"] = r.choice([0.0, 0.25, 0.001, 0.5])
-    c["pmf"] = use_grids and not c["eb"] and r.random() < f.get("p_pmf", 0.2)
+    c["pmf"] = use_grids and r.random() < f.get("p_pmf", 0.2)
     c["pmf_keep"] = c["pmf"] and r.random() < 0.4
     c["gfreq_explicit"] = use_grids and f.get("gfreq_explicit", r.random() < 0.4)
     c["gfreq"] = f.get("gfreq", r.choice([1, 2, 3, 4, 6])) if c["gfreq_explicit"] else c["freq"]
@@ -580,7 +580,8 @@ def model_case(c, xs, dump=True, foreign=None):
     st = steps_of(c)
     tsf = c.get("tsf", 1)
     asleep = sum(1 for t in st if t[0] % tsf != 0)
-    p.append(str(len(c["events"]) - asleep + (1 if foreign else 0)))
+    skip_pmf = bool(c.get("eb"))       # the ebMeta correction of the free-energy file is the oracle's, not the model's
+    p.append(str(len(c["events"]) - asleep + (1 if foreign else 0) - (sum(1 for e in c["events"] if e[0] == "pmf") if skip_pmf else 0)))
     n = 0
     for e in c["events"]:
         if foreign and e[0] == "step" and n == foreign[0]:
@@ -602,7 +603,8 @@ def model_case(c, xs, dump=True, foreign=None):
                                                                 str(e[1]["gfreq"]), "1" if e[1]["wt"] else "0", V.hexf(e[1]["bt"])]
             continue
         if e[0] == "pmf":
-            p += ["P", V.hexf(PMF_TEMP)]
+            if not skip_pmf:
+                p += ["P", V.hexf(PMF_TEMP)]
             continue
         if e[0] == "rebin":
             p.append("B")
@@ -983,6 +985,9 @@ def oracle(c, impl, traj):
             for g in geomp:
                 idx = [i + [b] for i in idx for b in range(g[0])]
             Eb = [esum(c, [[g[1] + v["w"] * (0.5 + b)] for v, g, b in zip(c["vars"], geomp, ix)], tab) for ix in idx]
+            if c.get("eb"):
+                # ebMeta: the free energy is corrected by kT ln(target distribution) before the maximum is taken
+                Eb = [t + PMF_TEMP * KB * math.log(q) for t, q in zip(Eb, target_processed(c))]
             scale = (cur["bt"] + PMF_TEMP) / cur["bt"] if cur["wt"] else 1.0
             exp_ = [(max(Eb) - t) * scale for t in Eb]
             name = "c05p_%s%s.pmf" % (c["id"], (".%d" % st[n][0]) if c.get("pmf_keep") and n >= 0 else (".%d" % c["it0"] if c.get("pmf_keep") else ""))
@@ -1277,6 +1282,8 @@ def witnesses():
              eb={"raw": [0.0, 2.0, 4.0, 8.0, 8.0, 4.0, 0.5, 0.0], "equil": 0, "minval": 0.0}),
         _cfg("w_ebmeta_minval", [_var()], [[3.5], [3.5], [0.5], [7.5], [2.5]],
              eb={"raw": [0.0, 2.0, 4.0, 8.0, 8.0, 4.0, 0.5, 0.0], "equil": 0, "minval": 0.25}),
+        _cfg("w_ebmeta_pmf", [_var()], [[3.5], [3.5], [0.5], "pmf", [7.5], [2.5], "pmf"], pmf=True,
+             eb={"raw": [1.0, 2.0, 4.0, 8.0, 8.0, 4.0, 2.0, 1.0], "equil": 0}),
         _cfg("w_ebmeta_step0", [_var()], [[3.5], [3.5], [2.5]], stepzero=True,
              eb={"raw": [1.0, 2.0, 4.0, 8.0, 8.0, 4.0, 2.0, 1.0], "equil": 0}),
         # ebMeta: the ramp runs on the absolute step: a job started at step 5, and one restarted inside / after the ramp
@@ -1413,7 +1420,7 @@ def check_one(run, c, impl, mo, txt, rcv, o, traj, mline):
             run.violation("ebmeta:target-normalisation", "target distribution as used by ebMeta %s, expected (raw values raised to 1e-6 "
                           "of the maximum, normalised, times exp(entropy)) %s" % (dumps[:1], tp), replay_d)
     mp, ip = c.get("_model_pmf") or [], [d_[1] for d_ in (c.get("_pmf_dump") or [])]
-    if len(mp) != len(ip) or any(not vec_close(a, b) for a, b in zip(ip, mp)):
+    if not c.get("eb") and (len(mp) != len(ip) or any(not vec_close(a, b) for a, b in zip(ip, mp))):
         run.mismatch("pmf", dict(replay_d), ip[:2], mp[:2])
     mt, it_ = c.get("_model_traj"), c.get("_last_traj")
     if mt is not None and it_ is not None:
